@@ -22,6 +22,7 @@ type KnownFinding struct {
 	Commit     string `json:"commit,omitempty"`
 	Replay     string `json:"replay,omitempty"`
 	Signature  string `json:"signature,omitempty"` // bounded checks: signature of the complete set of failing cases the finding covers
+	SignatureThorough string `json:"signature_thorough,omitempty"` // the same under the wider bounds of the thorough tier
 }
 
 type Evidence struct {
@@ -48,7 +49,21 @@ func cmdCheck(args []string) {
 	fs := flag.NewFlagSet("check", flag.ExitOnError)
 	tier := fs.String("tier", envOr("VERIF_TIER", "quick"), "quick|thorough")
 	updateBaseline := fs.Bool("update-baseline", false, "rewrite the baseline of obligation names for this property")
-	fs.Parse(args)
+	// accept flags after the property id as well ("check C07 --tier thorough")
+	var flags, pos []string
+	for i := 0; i < len(args); i++ {
+		a := args[i]
+		if strings.HasPrefix(a, "-") {
+			flags = append(flags, a)
+			if (a == "--tier" || a == "-tier") && i+1 < len(args) {
+				i++
+				flags = append(flags, args[i])
+			}
+		} else {
+			pos = append(pos, a)
+		}
+	}
+	fs.Parse(append(flags, pos...))
 	if fs.NArg() < 1 {
 		fmt.Fprintln(os.Stderr, "usage: govc check <property-id>")
 		os.Exit(2)
@@ -250,11 +265,17 @@ func cmdCheck(args []string) {
 		case "pass":
 		case "fail":
 			name := "bounded:" + br.Spec.Test
-			if kf := matchKnown(known, pid, name); kf != nil && (kf.Signature == "" || kf.Signature == br.Sig) {
+			wantSig := func(kf *KnownFinding) string {
+				if *tier == "thorough" && kf.SignatureThorough != "" {
+					return kf.SignatureThorough
+				}
+				return kf.Signature
+			}
+			if kf := matchKnown(known, pid, name); kf != nil && (wantSig(kf) == "" || wantSig(kf) == br.Sig) {
 				knownLines = append(knownLines, fmt.Sprintf("KNOWN-FINDING: property=%s %s [%s]", pid, kf.What, name))
 				continue
 			} else if kf != nil {
-				br.Fails = append(br.Fails, fmt.Sprintf("the set of failing cases (%s) differs from the one recorded for the known finding (%s): a different violation", br.Sig, kf.Signature))
+				br.Fails = append(br.Fails, fmt.Sprintf("the set of failing cases (%s) differs from the one recorded for the known finding (%s): a different violation", br.Sig, wantSig(kf)))
 			}
 			path := writeBoundedReplay(work, pid, repo, verif, br)
 			violations = append(violations, fmt.Sprintf("VIOLATION property=%s replay=%s", pid, path))
@@ -263,9 +284,35 @@ func cmdCheck(args []string) {
 			engineErrs = append(engineErrs, "bounded check "+br.Spec.Test+" did not run: "+lastLines(br.Output, 8))
 		}
 	}
-	// obligations that existed in the baseline but are gone
+	// obligations that existed in the baseline but are gone.  Names carry a snippet of the source line they belong to
+	// ("inv-keep:loop1:status @ if err != nil {", "bounds:x := a[i]"); a harmless re-wording of that line must not raise an
+	// alarm, so the comparison is by function + kind + clause label and by count: the contract-derived obligations of the
+	// baseline must still be generated at least as often.  Pure run-time safety obligations (bounds, nil, ...) exist only
+	// where the code has such an operation and are not compared.
+	haveCoarse := map[string]int{}
+	for n := range have {
+		if k := coarseKey(n); k != "" {
+			haveCoarse[k]++
+		}
+	}
+	baseCoarse := map[string]int{}
+	var baseOrder []string
 	for _, n := range baseline {
-		if !have[n] {
+		if k := coarseKey(n); k != "" {
+			if baseCoarse[k] == 0 {
+				baseOrder = append(baseOrder, k)
+			}
+			baseCoarse[k]++
+		}
+	}
+	var missing []string
+	for _, k := range baseOrder {
+		if haveCoarse[k] < baseCoarse[k] {
+			missing = append(missing, fmt.Sprintf("%s (baseline %d, now %d)", k, baseCoarse[k], haveCoarse[k]))
+		}
+	}
+	for _, n := range missing {
+		{
 			if kf := matchKnown(known, pid, n); kf != nil {
 				continue
 			}
@@ -389,6 +436,40 @@ func cmdCheck(args []string) {
 		os.Exit(1)
 	}
 	os.Exit(0)
+}
+
+// coarseKey: function/kind:label of an obligation name, without the source snippet and the occurrence number; "" for pure
+// run-time safety obligations.
+func coarseKey(name string) string {
+	i := strings.Index(name, "/")
+	for j := i; j >= 0 && j < len(name); {
+		// the function part may itself contain '/': the kind starts after the last '/' that precedes the first ':' after ')'
+		break
+	}
+	// split at the last "/" before the first kind marker
+	cut := -1
+	for _, kind := range []string{"/pre:", "/ensures:", "/inv-init:", "/inv-keep:", "/frame:", "/frame-write:", "/lemma", "/scan:", "/body-assert:", "/exists:", "/refused", "/canary:"} {
+		if p := strings.Index(name, kind); p >= 0 && (cut < 0 || p < cut) {
+			cut = p
+		}
+	}
+	if strings.HasPrefix(name, "lemma:") {
+		return name
+	}
+	if cut < 0 {
+		return "" // bounds:, slice:, nilderef:, nilmap:, div0:, typeassert:, overflow:, nonnil-arg:, nilinvoke:, path:
+	}
+	rest := name[cut:]
+	if p := strings.Index(rest, " @ "); p >= 0 {
+		rest = rest[:p]
+	}
+	if p := strings.LastIndex(rest, "#"); p >= 0 {
+		if _, err := strconv.Atoi(rest[p+1:]); err == nil {
+			rest = rest[:p]
+		}
+	}
+	_ = i
+	return name[:cut] + rest
 }
 
 func shortKey(k string) string { return strings.ReplaceAll(k, repoMod+"/", "") }
